@@ -256,6 +256,11 @@ struct Exporter {
       if (auto *CO = LE->getCallOperator())
         for (auto *P : CO->parameters()) { json::Object p; p["name"] = P->getNameAsString(); p["id"] = declId(P); p["t"] = typeInfo(P->getType()); lps.push_back(std::move(p)); }
       o["params"] = std::move(lps);
+      {
+        bool capThis = false; bool byRef = (LE->getCaptureDefault() == LCD_ByRef);
+        for (const auto &C : LE->captures()) { if (C.capturesThis()) capThis = true; if (C.getCaptureKind() == LCK_ByRef) byRef = true; }
+        o["captures_this"] = capThis; o["captures_by_ref"] = byRef;
+      }
     } else if (isa<CXXNullPtrLiteralExpr>(E)) {
       o["k"] = "Null";
     } else if (auto *CL = dyn_cast<CharacterLiteral>(E)) {
